@@ -49,13 +49,22 @@ def run_fifo(rec, rnd, cycles, case):
     slots, maxlat, ways = case["slots"], case["max_latency"], case["ways"]
     dut = FIFOLatencyMeasurer("lat", slots_number=slots, max_latency=maxlat, ways=ways)
     circ = SimpleTestCircuit(dut)
-    sim = PysimSimulator(circ, max_cycles=cycles + 10)
+    # every second history: a second, competing caller on every start/stop way (a way records one event per cycle)
+    rv = None
+    if case.get("history", 0) % 2 == 1:
+        from ..comp.driver import RivalSet
+        from transactron.utils import ModuleConnector
+        rv = RivalSet({**{f"start{k}": mth for k, mth in enumerate(dut.start)}, **{f"stop{k}": mth for k, mth in enumerate(dut.stop)}})
+        rec.count("histories_with_rival_callers")
+        sim = PysimSimulator(ModuleConnector(circ, rv), max_cycles=cycles + 10)
+    else:
+        sim = PysimSimulator(circ, max_cycles=cycles + 10)
     h = dut.histogram
     st = fresh(h)
     q = [collections.deque() for _ in range(ways)]
 
     async def drv(ctx):
-        trig = ctx.tick().sample(*[io.adapter.done for io in circ.start], *[io.adapter.done for io in circ.stop], *regs_of(h))
+        trig = ctx.tick().sample(*[io.adapter.done for io in circ.start], *[io.adapter.done for io in circ.stop], *regs_of(h), *(rv.signals() if rv is not None else []))
         ps, pp = rnd.choice([0.2, 0.5, 0.9]), rnd.choice([0.1, 0.4, 0.9])
         log = collections.deque(maxlen=8)
         for cyc in range(cycles):
@@ -63,10 +72,21 @@ def run_fifo(rec, rnd, cycles, case):
                 ps, pp = rnd.choice([0.2, 0.5, 0.9]), rnd.choice([0.1, 0.4, 0.9])
             for k in range(ways):
                 old = q[k][0] if q[k] else None
-                ctx.set(circ.start[k].adapter.en, rnd.random() < ps)
+                en_start = rnd.random() < ps
                 # keep latencies within max_latency: force the stop when the oldest event is close to the limit
-                ctx.set(circ.stop[k].adapter.en, (old is not None and cyc - old >= maxlat - 1) or rnd.random() < pp)
+                en_stop = (old is not None and cyc - old >= maxlat - 1) or rnd.random() < pp
+                if rv is not None:
+                    rv.request(ctx, rnd, f"start{k}", circ.start[k], en_start, None, rec)
+                    rv.request(ctx, rnd, f"stop{k}", circ.stop[k], en_stop, None, rec)
+                else:
+                    ctx.set(circ.start[k].adapter.en, en_start)
+                    ctx.set(circ.stop[k].adapter.en, en_stop)
             _, _, *vals = await trig
+            if rv is not None:
+                rvals, vals = vals[-4 * ways:], list(vals[:-4 * ways])
+                for k in range(ways):
+                    vals[k], _ = rv.fold(rec, case, f"start{k}", vals[k], None, rvals, {"cycle": cyc})
+                    vals[ways + k], _ = rv.fold(rec, case, f"stop{k}", vals[ways + k], None, rvals, {"cycle": cyc})
             d_start, d_stop, got = vals[:ways], vals[ways:2 * ways], vals[2 * ways:]
             log.append({"cycle": cyc, "start_done": [int(x) for x in d_start], "stop_done": [int(x) for x in d_stop], "open_events": [list(x) for x in q]})
             if not compare(rec, got, st, case, log, 0):
